@@ -115,6 +115,7 @@ def gen(rng, tier):
     yield from _gen_main(rng, tier)
     yield from _grid(rng, tier)
     yield from _huge(rng, tier)
+    yield from _exh8(rng, tier)
 
 
 def _grid(rng, tier):
@@ -139,3 +140,14 @@ def _huge(rng, tier):
                 op = ['checked_div', 'checked_rem', 'checked_rem_euclid'][k % 3]
                 k += 1
                 yield f"{op} {s}{cfg} {hx(a)} {hx(b)}", "huge"
+
+
+def _exh8(rng, tier):
+    """complete enumeration of the 8-bit instantiation (a test of the u8 digit primitives through N = 1)"""
+    if tier == "thorough":
+        return
+    for s in "ui":
+        for op in ['checked_div', 'checked_rem']:
+            for a in range(256):
+                for b in range(256):
+                    yield f"{op} {s}8x1 {hx(a)} {hx(b)}", "exhaustive8"
